@@ -22,10 +22,13 @@ MODELLED_NOT_VERIFIED = [
     "C03: clause (c) (update_bipartitions leaves a fresh encoding) is decided by the from-scratch oracle only; the Lean model carries "
     "the restructuring done by encode_bipartitions, not the masks (those are C01's)",
 ]
-EXPLANATION = ("Theorems (Props/C03.lean): step_wf/history_wf - every modelled operation and every history keeps the tree free of "
-               "shared nodes (with the tree being an inductive rose tree this is clause (a) at tree level); heap refinement of the "
-               "pointer primitives (ofTree_repr, removeChild_repr, addChild_repr, ...); leaf-taxon accounting lemmas for the "
-               "re-arranging operations; see the file header for the _partial ones.")
+EXPLANATION = ("Theorems (Props/C03.lean, all without sorry/axioms): step_wf / history_wf - every operation of the 29-constructor "
+               "alphabet and every finite history keeps the rose tree free of shared nodes (clause (a) at tree level, full strength "
+               "over the model); suppress_keeps_leaf_taxa (clause (b) for unifurcation suppression); heap layer: ofTree_repr, "
+               "removeChild_repr, removeChild_frame, removeChild_error_iff, removeChild_refines (pointer-level remove_child refines "
+               "the tree-level removal). Not proved, only modelled and compared with the code every run: heap refinement of "
+               "add_child/insert_child/remove_child(suppress)/parent setter/Edge.collapse/Edge.invert/reseed chain; clause (b) for "
+               "the other operations and clause (c) are decided by the oracle on the implementation after every step.")
 
 DOC_ERRORS = ("ValueError", "TypeError", "SeedNodeDeletionException")
 FLAG_OPS_UB = {"reseed", "rerootnode", "rerootedge", "outgroup", "suppress", "collapseunweighted", "resolve", "resolve_rng",
